@@ -80,7 +80,7 @@ APIAUTH = dict(sub="apiauth", mode="apiauth", family="apiauth", shards=q(4, 16),
 
 
 def c11(prop, tier, res, replay=None):
-    return pure.check_cases(prop, tier, res, [APIAUTH], [
+    return pure.check_cases(prop, tier, res, [APIAUTH, CONCX], CONCX_ASSUME + [
         "configurations are generated as text through the real parser/compiler/loadAuth; Pull requests go through the real pullapi.Server.ServeHTTP, Worker requests through the real workerapi.Server methods with gRPC metadata in the context (no network transport, no mTLS), Admin requests through the real admin handler",
         "the endpoint a request addresses is the path.Clean-ed URL path minus the operation (stdlib path.Clean is trusted)"], replay)
 
